@@ -179,6 +179,34 @@ theorem limited_output_is_a_prefix_of_the_plaintext (r : Regs) (inp out : Array 
   rw [← hframe]
   exact hbyte
 
+open Model.Core in
+/-- The same for the zlib format: a zlib stream the reference decoder accepts (header, body, trailer)
+    whose plaintext does not fit the window is reported as "has more output"; one that fits, as `Done`. -/
+theorem valid_zlib_stream_status_is_decided_by_the_window (r : Regs) (inp out : Array UInt8) (outPos budget flags : Nat)
+    (zr : Spec.ZInflated) (hstart : r.state = sStart)
+    (hshape : r.rawHeader.size = 4 ∧ r.tableSizes.size = 3 ∧ r.lenCodes.size = 512)
+    (hflat : hasFlag flags fNonWrapping = true) (hz : hasFlag flags fParseZlib = true)
+    (hstop : hasFlag flags fStopOnBlockBoundary = false) (hpos : outPos ≤ out.size)
+    (hspec : Spec.zlibSpec (out.extract 0 outPos) 32768 inp true = .accept zr) :
+    ((decompress r inp out outPos budget flags).status = stDone ↔
+      outPos + zr.inner.out.size ≤ min (outPos + budget) out.size) ∧
+    ((decompress r inp out outPos budget flags).status = stHasMoreOutput ↔
+      min (outPos + budget) out.size < outPos + zr.inner.out.size) := by
+  obtain ⟨cmf, flg, a, b, c, d, h0, h1, hv, hi, ha, hb, hc, hd, hadl, hused⟩ := zlibSpec_inv hspec
+  by_cases hfit : outPos + zr.inner.out.size ≤ min (outPos + budget) out.size
+  · have hd' : (decompress r inp out outPos budget flags).status = stDone := by
+      have h := refine_zlib_flat r inp out outPos budget flags 32768 zr.inner cmf flg a b c d hstart hshape hflat hz hstop
+        hpos h0 h1 hv hi ha hb hc hd hfit
+      rw [h.1, if_neg]
+      intro hh
+      exact hh.2 (hadl rfl)
+    refine ⟨⟨fun _ => hfit, fun _ => hd'⟩, ⟨fun h => ?_, fun h => by omega⟩⟩
+    rw [hd'] at h; exact absurd h (by decide)
+  · have hbg : min (outPos + budget) out.size < outPos + zr.inner.out.size := by omega
+    have hm := full_zlib_flat r inp out outPos budget flags 32768 zr.inner cmf flg hstart hshape hflat hz hstop hpos h0 h1 hv hi hbg
+    refine ⟨⟨fun h => ?_, fun h => absurd h hfit⟩, ⟨fun _ => hbg, fun _ => hm⟩⟩
+    rw [hm] at h; exact absurd h (by decide)
+
 /-! ### The size-limited vector functions (`Model.Vec.decompressToVec`, tied by the VECI correspondence) -/
 /-- `decompress_to_vec*_with_limit` never returns more than the limit — neither as a result nor as
     the partial output carried by an error — for EVERY behaviour of the inner decoder (the inner
